@@ -143,7 +143,12 @@ func (reg *LWW) setValue(ctx context.Context, val []byte, priority uint64) error
 	} else if priority == curPrio {
 		curValue, err := reg.store.Get(ctx, key.Bytes())
 		if err != nil {
-			return err
+			if !errors.Is(err, corekv.ErrNotFound) {
+				return err
+			}
+			// A nil value is stored by removing the key, so a missing key at this
+			// priority means the current value is nil.
+			curValue = client.CborNil
 		}
 
 		if bytes.Compare(curValue, val) >= 0 {
